@@ -651,6 +651,15 @@ class ListCell(Cell):
       return None
     if name == 'copy':
       return ctx.alloc(ListCell(self.seq, self.codec, self.is_array))
+    if name == 'reverse' and not self.is_array:
+      # over-approximation: a list of the same length whose first and last elements are swapped images
+      self.check_write(ctx, ref, 'reverse')
+      rev = ctx.fresh('reversed', self.seq.sort())
+      n = z3.Length(self.seq)
+      ctx.assume(z3.And(z3.Length(rev) == n,
+                        z3.Implies(n >= 1, z3.And(rev[0] == self.seq[n - 1], rev[n - 1] == self.seq[0]))))
+      ctx.set_cell(ref.addr, self._with(rev))
+      return None
     raise Unsupported(f'list.{name}')
 
   def getattr(self, ctx, ref, name):
@@ -796,6 +805,12 @@ class PyListCell(Cell):
       self.check_write(ctx, ref, 'clear')
       c = self.clone()
       c.items = []
+      ctx.set_cell(ref.addr, c)
+      return None
+    if name == 'reverse':
+      self.check_write(ctx, ref, 'reverse')
+      c = self.clone()
+      c.items = list(reversed(c.items))
       ctx.set_cell(ref.addr, c)
       return None
     raise Unsupported(f'pylist.{name}')
